@@ -29,7 +29,7 @@ var listPieces = []string{
 	"SELECT", "FOO", ")", "", "/* c */",
 }
 
-var listSeps = []string{";", " ; ", ";\n", " /*c*/ ; --c\n", ";;", "/*c*/;/*d*/"}
+var listSeps = []string{";", " ; ", ";\n", " /*c*/ ; --c\n", ";;", "/*c*/;/*d*/", "\n"}
 
 // posDump lists every token.Pos field of the tree (shifted by delta when valid).
 func posDump(n any, delta int) string {
@@ -152,7 +152,7 @@ func checkListCompose(listEntry, singleEntry string, x string) (viol map[string]
 
 // C11: statement lists compose.
 func C11(r *explore.Run) {
-	r.Rule = "every list of at most N pieces from a pool of 27 (valid query/DML/DDL/CALL, end-of-input-sensitive forms complete and truncated, other invalid, empty, comment-only) joined by each of 6 separator spellings, with/without leading and trailing ';', through ParseStatements/ParseDDLs/ParseDMLs; oracle built on SplitRawStatements and the single-statement entry points; inputs that do not lex (R1) are skipped; " +
+	r.Rule = "every list of at most N pieces from a pool of 27 (valid query/DML/DDL/CALL, end-of-input-sensitive forms complete and truncated, other invalid, empty, comment-only) joined by each of 7 separator spellings (one of them without any ';'), with/without leading and trailing ';', through ParseStatements/ParseDDLs/ParseDMLs; oracle built on SplitRawStatements and the single-statement entry points; inputs that do not lex (R1) are skipped; " +
 		"non-trivial = list with >=2 token-bearing pieces; distinct by text"
 	n := 3
 	if r.Tier == "thorough" {
